@@ -7,7 +7,8 @@ RULE = ("requests: Float01 (f32, f64, Random::float01) for all 65 leading-zero c
         "extra (implementation only, exact counting by interval search with real calls): the number of first words Float01 maps into each binade [2^-(k+1), 2^-k) must be exactly 2^(63-k) "
         "for every k < 64 (all words covered: the step function first word -> binade is resolved completely), the mantissa field must take probed values for exactly 2^12 (f64: 64-bit second word) / 2^9 (f32: 32-bit second word) words each, "
         "twin runs (ChaCha at every buffer offset, SplitMix64, Wyrand): the float equals the top bits of the raw word the generator returns at the same point of the same history; "
-        "and next_f64 / next_f32 through the standard distribution must hit probed values of [1,2) by equally many words; non-trivial = all; distinct = distinct request line")
+        "and next_f64 / next_f32 through the standard distribution must hit probed values of [1,2) by equally many words; non-trivial = all; distinct = distinct request line"
+        " Since rounds 9/10: the [1,2) oracle on ChaCha histories; float01() / unit floats as ops inside ChaCha histories at every kind of buffer position (f01 must lie strictly inside (0,1)).")
 ASSUMPTIONS = []
 
 
